@@ -99,12 +99,16 @@ class DesignPart(Part):
             key = D['name']
             if key not in chk._design_bases:
                 ctx = Ctx(); ctx.step_limit = 10 ** 9
-                chk._design_bases[key] = load_design(chk.pkit, ctx, D)
                 for lib, fn, text in D['files']: chk.texts.add('/p/' + fn, text)
+                try: chk._design_bases[key] = load_design(chk.pkit, ctx, D)
+                except Panic as p:
+                    # loading = parsing + analysis of the design: a panic here is a finding of every path over this design
+                    chk._design_bases[key] = ('panic', str(p))
         return chk._design_bases
 
     def project(self, chk, ctx, inp, D):
         base = self.bases(chk)[D['name']]
+        if isinstance(base, tuple): raise Violation('parsing or analysis of the design panics: ' + base[1], 'panic')
         if inp.symbolic: ctx.statics = base.statics; return base
         return base.clone(ctx)
 
@@ -286,6 +290,7 @@ class CursorQueries(DesignPart):
                 return dict(item=None if o['item'] is None else (o['item'][0], e2(o['item'][1])), declaration=e2(o['declaration']), definition=e2(o['definition']),
                             type_definition=e2(o['type_definition']), implementation=sorted(map(repr, map(e2, o['implementation']))), completions=o['completions'],
                             references=sorted(o['references']))
+            if isinstance(mine, dict) and 'panic' in mine and isinstance(theirs, dict) and 'panic' in theirs: continue
             if strip(mine) != strip(theirs): bad.append({'case': {k: w[k] for k in w}, 'design': self.designs[w['design']]['name'], 'interpreter': json.loads(json.dumps(strip(mine), default=str)), 'native': json.loads(json.dumps(strip(theirs), default=str))})
         return len(cases), bad
 
@@ -293,10 +298,11 @@ class CursorQueries(DesignPart):
 class RefsBack(DesignPart):
     """a cursor strictly inside any position returned by find-all-references resolves to the same declaration or its counterpart"""
 
-    def __init__(self, name, designs, required=(), time_cap=None):
+    def __init__(self, name, designs, required=(), time_cap=None, stride=1, offset=0):
         self.name, self.designs = name, designs
+        self.stride, self.offset = stride, offset
         self.required_classes = required; self.time_cap = time_cap
-        self.bounds = dict(designs=[d['name'] for d in designs], entity='every entity some reference in a design file resolves to (find_all_entity_references)',
+        self.bounds = dict(designs=[d['name'] for d in designs], entity='every entity some reference in a design file resolves to (find_all_entity_references)' + (f'; every {stride}. of them, rotating with VERIF_SEED' if stride > 1 else ''),
                            position='every position find_all_references returns for it that lies in a design file and is at least 2 characters wide',
                            cursor='character symbolic, strictly inside the position')
 
@@ -312,6 +318,7 @@ class RefsBack(DesignPart):
         for rng_, dcl, ent in ers:
             eid = ent_info(kit, ent)['id']
             if eid not in seen: seen.add(eid); ents.append(ent)
+        ents = ents[self.offset % max(1, min(self.stride, len(ents)))::self.stride]
         if not ents: raise Infeasible()
         ent = ents[choose(ctx, inp, 'entity', len(ents))]
         E = ent_info(kit, ent)
